@@ -163,13 +163,24 @@ CHECKS = {
 
     "C13": dict(
         engine="E3", category="exploration",
-        text=("(a) Every operation sequence of length <= 3 over a 14-operation alphabet (successful run, run failing in the stale check / in a call / in a store write, dry run, render, render(level), run without output, "
+        text=("(a) Every operation sequence of length <= 3 over a 17-operation alphabet (successful run, run failing in the stale check / in a call / in a store write, dry run, render, render with level 0/1/2/-1, with a predicate, of a dry-run result and of a bare graph, run without output, "
               "transform_physical that edits the physical plan, run without registry, fresh_time run, 2-worker random run, Plan.copy / Registry.copy followed by mutation of the copy) on five plans; a deep identity snapshot "
               "(node objects, their scope/fn/value/stack_frame identities, edge multiset with keys and data, plan scope, registry entries and RegistryValue objects) is compared after EVERY step and a final run is compared with a pristine twin. "
               "(b) Stateless model checking (E1) of two threads that run / dry-run the SAME plan and registry concurrently: every schedule with <= 1 preemption (bounded non-default choices at blocking points), scheduling points at attribute/subscript accesses inside the transformation code; "
               "both must return the sequential result and the snapshot must be unchanged."),
         design_ref="DESIGN.md section 4, C13", note=E1_NOTE + " Node objects are shared between a plan and its copies by design; only structural mutation of copies is exercised.",
         technique="bounded-exhaustive operation-sequence enumeration with snapshot invariant + stateless model checking of concurrent runs",
+    ),
+
+    "C15": dict(
+        engine="E1", category="model_checking",
+        text=("Stateless model checking of uberjob.run with a recording ProgressObserver whose methods are scheduling points: plans with nested and repeated scopes (several calls sharing one scope), with and without a registry "
+              "(missing and fresh stored values), every fault pattern of {Exception, BaseException, SystemExit} calls, max_errors in {0,1,None}, 1-2 workers, both schedulers, single and composite observers; every schedule within the preemption bound. "
+              "Oracle = an automaton over each execution's notification sequence: enter first; exit exactly once, last, with the exception type iff run raised; totals announced before anything runs in that (section, scope); "
+              "running never negative nor above total; with calls ending normally or by Exception every running matched by exactly one completed/failed and nothing running at exit; after success completed == total everywhere, "
+              "'run' totals per user scope == independently counted executed calls with that scope, 'stale' totals == number of calls examined; composite members receive identical sequences."),
+        design_ref="DESIGN.md section 4, C15", note=E1_NOTE,
+        technique="stateless model checking of the implementation with an automaton oracle over observer notifications",
     ),
 }
 
